@@ -62,6 +62,10 @@ func genC19(t *rapid.T) *c19Case {
 	kinds := []string{"put", "put", "put", "get", "get", "del", "expire", "incr", "getput", "lock", "unlock", "scan", "destroy"}
 	for i := 0; i < n; i++ {
 		op := c19Op{Op: rapid.SampledFrom(kinds).Draw(t, "op")}
+		if c.LeaveAt >= 0 && i >= c.LeaveAt {
+			// what the variant is for: Destroy (and reads) in the state a leave produces
+			op.Op = rapid.SampledFrom([]string{"destroy", "destroy", "scan", "get"}).Draw(t, "opAfterLeave")
+		}
 		op.D = rapid.IntRange(0, len(c.Names)-1).Draw(t, "d")
 		op.K = rapid.IntRange(0, len(c.Keys)-1).Draw(t, "k")
 		op.Path = rapid.IntRange(1, 6).Draw(t, "path")
@@ -127,6 +131,36 @@ func runC19(c *c19Case) (v *vcommon.Violation, nontrivial, inconclusive bool) {
 			if err := cl.waitSettled(20 * time.Second); err != nil {
 				return nil, nontrivial, true
 			}
+			// The routing table is settled, the data is not: fragments are still handed over in the background,
+			// and until the new primary owner's own former backup fragment has moved a key may be invisible.
+			// What survives a stop is C02's subject. Here the variant only needs the state a leave produces, so
+			// it waits until every DMap reads as its model says (and gives the case up if that does not happen).
+			readsOK := false
+			for dl := time.Now().Add(6 * time.Second); !readsOK && time.Now().Before(dl); {
+				readsOK = true
+				for d2, name2 := range names {
+					chk := &pathClient{cl: cl, dmap: name2, path: pCluster}
+					for _, k2 := range c.Keys {
+						g := chk.get(ctx, k2)
+						want, ok := models[d2][k2]
+						if ok && (g.Err != "" || string(g.Val) != want) || !ok && g.Err != "notfound" {
+							readsOK = false
+						}
+					}
+				}
+				if !readsOK {
+					time.Sleep(100 * time.Millisecond)
+				}
+			}
+			if !readsOK {
+				return nil, nontrivial, true
+			}
+		}
+		if c.LeaveAt >= 0 && i >= c.LeaveAt && op.Op != "destroy" && op.Op != "scan" && op.Op != "get" {
+			// After the leave only Destroy, scans and reads are issued: writes and deletes that race with the
+			// hand-over of fragments after a stop belong to C02 (two findings are recorded there), not to the
+			// separation of DMaps.
+			continue
 		}
 		if c.LeaveAt >= 0 && i >= c.LeaveAt && (op.Op == "lock" || op.Op == "unlock" || op.Op == "expire") {
 			// After a failover a key may live on its backup copy only. Reads find it there, but the conditions of
